@@ -212,6 +212,8 @@ impl Property for C07 {
             list.push(0);
             let _ = std::fs::write(root.join(STARTS_FILE), list);
             rep.probe("starting_point_through_files0_from");
+        } else {
+            let _ = std::fs::remove_file(root.join(STARTS_FILE));
         }
         let wcfg = WalkCfg {
             follow: match sc.follow.as_deref() {
